@@ -283,6 +283,20 @@ def t_object_trailing_comma(text, res):
     return False
 
 
+def t_accessor_restricted_name_newline(text, res):
+    """an accessor property named break / continue / return / throw whose name
+    is followed by a line terminator ('{get return<LF>() {}}')"""
+    if res is None:
+        return re.search(r'(?<![\w$])(?:get|set)(?![\w$])[\s\S]{0,40}?(?<![\w$])(?:break|continue|return|throw)(?![\w$])', text) is not None
+    toks = res.tokens
+    for n in _walk_ref(res.tree):
+        if n.kind in ('GetPropAssign', 'SetPropAssign'):
+            i = n.first + 1
+            if i + 1 < len(toks) and toks[i].value in ('break', 'continue', 'return', 'throw') and toks[i + 1].nl_before:
+                return True
+    return False
+
+
 def tt_comment_after_restricted_keyword(tree):
     """tree-level form: the operand of a return / throw / break / continue has
     a comment somewhere on its leftmost spine, i.e. the printer emits that
